@@ -64,10 +64,10 @@ PROPS = {
         level_note=LEMMA_NOTE + COMMON_NOTE,
     ),
     'C04': dict(
-        components=[('kani', 'alphabet_leaf', {})] + U1 + [(V, 'u3_dfa', {}), (V, 'u3_nnfa', {}), (V, 'u3_cnfa', {}), ('kani', 'nnfa_leaf', {}), b('bisim', families='small,abc,ci,wide'),
+        components=[('kani', 'alphabet_leaf', {}), (V, 'l2_bisim', {})] + U1 + [(V, 'u3_dfa', {}), (V, 'u3_nnfa', {}), (V, 'u3_cnfa', {}), ('kani', 'nnfa_leaf', {}), b('bisim', families='small,abc,ci,wide'),
                          sem('std,lf,ll', 'find,iter,ov,anch', families='small,abc', cfgs='all', rel='kind', thorough_aspects='find,iter,ov,anch,spans')],
         level_text='Proof (Verus): every search API is a function of the abstract automaton only (find_spec / ov_remaining over AC), so two representations with equal abstract behaviour give equal results for every haystack; the accessors of each representation are proved to compute the abstract transition function of that representation (u3_dfa, u3_nnfa: a densified state answers exactly like its sparse chain; u3_cnfa: the dense, one-transition and sparse encodings all answer c_lookup). Bounded stand-in (exhaustive over haystacks per pattern list): product BFS bisimulation of the reference noncontiguous NFA with every contiguous/DFA/dense-depth/byte-class configuration over all 256 bytes from both start states; top-level vs low-level use compared through the API.',
-        level_note=COMMON_NOTE + ' The lifting "bisimilar automata => equal API results" (L-bisim) is an unmechanised consequence of the proved postconditions being functions of the AC ghost state only.',
+        level_note=COMMON_NOTE + ' The lifting "bisimilar automata => equal scan / find_spec / ov_list" (L-bisim) is proved in unit l2_bisim; the bisimulation itself is established per pattern list by the bounded product BFS.',
     ),
     'C05': dict(
         components=[('kani', 'prefilter_leaf', {}), ('kani', 'prefilter_findin', {})] + [(V, 'u1_search', {}), (V, 'u1_overlap', {}),
@@ -76,9 +76,9 @@ PROPS = {
         level_note=COMMON_NOTE,
     ),
     'C06': dict(
-        components=[('kani', 'pattern_raw', {}), ('kani', 'teddy_searcher', {}), (V, 'u5_packed_api', {}), b('packed')],
-        level_text='Proof (Verus, u5_packed_api): the real packed::Searcher::find_in/find_in_slow/FindIter::next dispatch — the Teddy minimum-length precondition holds on its branch, shorter spans go to Rabin-Karp, both engines get exactly haystack[..span.end] and span.start, results lie in the span, the iterator restarts at the previous end. Kani (bounded by length): raw-pointer pattern comparison equals slice comparison inside exactly-sized objects; teddy::Searcher::find pointer<->offset conversion and its minimum-length assert. Bounded stand-in for the engines themselves (Teddy windows/buckets/verification, Rabin-Karp): every packed variant available on this CPU (Rabin-Karp, slim Teddy 128/256, fat Teddy, default) on the real SIMD code vs the leftmost definition, haystack lengths 0..=100, every span of short haystacks.',
-        level_note='Teddy window arithmetic, bucket assignment and Rabin-Karp are covered by the bounded executed contract only (labelled bounded). SIMD intrinsics are outside every installed verifier.',
+        components=[('kani', 'pattern_raw', {}), ('kani', 'teddy_searcher', {}), (V, 'u5_packed_api', {}), (V, 'u5_rabinkarp', {}), b('packed')],
+        level_text='Proof (Verus, u5_packed_api): the real packed::Searcher::find_in/find_in_slow/FindIter::next dispatch — the Teddy minimum-length precondition holds on its branch, shorter spans go to Rabin-Karp, both engines get exactly haystack[..span.end] and span.start, results lie in the span, the iterator restarts at the previous end. Proof (Verus, u5_rabinkarp): the real Rabin-Karp engine — hash and update_hash in wrapping arithmetic equal the polynomial hash modulo 2^64 and the rolling update yields the hash of the next window (lemma_roll), so find_at misses no occurrence: it returns None only if no pattern occurs at any position >= at, and otherwise the first position with an occurrence and, there, the verifying bucket entry of highest priority, with the match span inside the haystack; under the builder hypothesis rk_wf (hash_2pow = 2^(hash_len-1) mod 2^64, every pattern filed under the hash of its first hash_len bytes, bucket entries in priority order) and the contract of Pattern::is_prefix. Kani (bounded by length): raw-pointer pattern comparison equals slice comparison inside exactly-sized objects; teddy::Searcher::find pointer<->offset conversion and its minimum-length assert. Bounded stand-in for the engines themselves (Teddy windows/buckets/verification, Rabin-Karp): every packed variant available on this CPU (Rabin-Karp, slim Teddy 128/256, fat Teddy, default) on the real SIMD code vs the leftmost definition, haystack lengths 0..=100, every span of short haystacks.',
+        level_note='Teddy window arithmetic and bucket assignment, and the Rabin-Karp constructor (rk_wf), are covered by the bounded executed contract only (labelled bounded). SIMD intrinsics are outside every installed verifier.',
     ),
     'C07': dict(
         components=[(V, 'l1_semantics', {})] + U2 + [(V, 'u1_iter', {}), b('stream', aspects='find'), b('ac', families='small', lens='1')],
@@ -122,7 +122,7 @@ PROPS = {
         level_note=COMMON_NOTE,
     ),
     'C15': dict(
-        components=[('kani', 'search_leaf', {}), ('kani', 'pattern_raw', {}), ('kani', 'teddy_searcher', {}), (V, 'u5_packed_api', {})] + U1 + U2 + [(V, 'u7_replace', {}), b('packed', mode='safety'), b('pc', mode='safety')],
+        components=[('kani', 'search_leaf', {}), ('kani', 'pattern_raw', {}), ('kani', 'teddy_searcher', {}), (V, 'u5_packed_api', {}), (V, 'u5_rabinkarp', {}), (V, 'u3_dfa', {}), (V, 'u3_nnfa', {}), (V, 'u3_cnfa', {})] + U1 + U2 + [(V, 'u7_replace', {}), b('packed', mode='safety'), b('pc', mode='safety')],
         level_text='Proof (Verus): every index, slice, subtraction, addition, unwrap/expect/assert!/debug_assert! in the extracted search functions is a discharged obligation; reported matches satisfy start <= end <= len and pid < pattern count (match_in lemmas). Bounded stand-in for the raw-pointer SIMD code: all packed variants on exactly-sized allocations for lengths 0..=100.',
         level_note=COMMON_NOTE + ' Raw-pointer code (Teddy, is_prefix_raw) is covered by bounded runs only until the Kani unit lands.',
     ),
